@@ -316,6 +316,11 @@ def run_case(spec, j):
   j.ok('C13.solves-pd-input')
   if len(_cap['solver']) == 1:
     _judge_solver_input(j, _cap['solver'][0], M0inv + b * Lm, alpha, det)
+  if np.all(np.isfinite(M)) and np.abs(M - M.T).max() <= 1e-9 * nM and \
+          abs(lam.min()) <= 100 * np.finfo(float).eps * d * nM:
+    # (below the rounding level of M = L'L definiteness is not decidable)
+    j.skip('C13', 'metric-singular-to-rounding')
+    return
   j.check('C13.M-spd', bool(np.all(np.isfinite(M))) and
           np.abs(M - M.T).max() <= 1e-9 * nM and lam.min() > 0,
           dict(det, lambda_min=lam.min()))
